@@ -2,7 +2,7 @@
    Definitions only (extracted).  One machine, three switches [cfg] that select between the code as it
    is at /repo HEAD (all false) and the repaired code (all true):
      fix_clear    (D19)  addFeature / sort call cache_clear on the lru_cache of findFeaturesAt
-     fix_autosort (D31)  findFeaturesBetween / findFeaturesAtPysamAlign re-index when not sorted
+     fix_autosort (D32)  findFeaturesBetween / findFeaturesAtPysamAlign re-index when not sorted
      fix_halfopen (D20)  findFeaturesAtPysamAlign(method=1) queries [start, end-1] of a pysam block
    Python objects:  feature tuple (start, end, name, strand, data) -> [feat] (name/data are order
    preserving integer codes; strand 0 = None, 1 = '+', 2 = '-');  contig name -> Z;
@@ -73,7 +73,8 @@ Fixpoint dedup (l : list feat) : list feat :=
 Record crec := mkC { c_feats : list feat; c_indexed : bool; c_starts : list Z; c_ends : list Z;
                      c_maxlen : Z; c_fast : list nat }.
 
-(* fastIndex[c][s - 1] with Python's negative index for s = 0 *)
+(* fastIndex[c][s - 1] with Python's negative index for s = 0.  (IndexError on an empty array cannot occur: a contig
+   key is created by addFeature together with its first feature, so fastIndex[c] has at least one entry.) *)
 Definition fast_at (fast : list nat) (s : nat) : nat :=
   match s with O => last fast O | S k => nth k fast O end.
 
@@ -143,6 +144,7 @@ Inductive res := ROk (l : list feat) | RRaise (e : Z).
       3 ValueError (min() of an empty sequence in sort), 4 ValueError (invalid strand in addFeature) *)
 
 (* ---- sort() *)
+(* np.max of the feature lengths; np.max([]) would raise, but a contig list is never empty (see fast_at) *)
 Definition list_max (l : list Z) : Z := match l with [] => 0 | a :: t => fold_left Z.max t a end.
 Definition min_start (v : list feat) : Z :=
   match v with [] => 0 | g :: t => fold_left Z.min (map f_start t) (f_start g) end.
